@@ -18,6 +18,7 @@ mod c11;
 mod c12;
 mod c14;
 mod c15;
+mod c17;
 mod c19;
 mod c20;
 
@@ -30,7 +31,7 @@ pub struct Family {
 }
 
 fn families() -> Vec<Family> {
-    vec![c20::family(), c15::family(), c07::family(), c05::family(), c06::family(), c08::family(), c10::family(), c11::family(), c12::family(), c03::family(), c19::family(), c14::family(), c14::family18()]
+    vec![c20::family(), c15::family(), c07::family(), c05::family(), c06::family(), c08::family(), c10::family(), c11::family(), c12::family(), c03::family(), c19::family(), c14::family(), c14::family18(), c17::family()]
 }
 
 pub fn hex(b: &[u8]) -> String {
